@@ -173,7 +173,12 @@ impl Process {
 
     /// Creates a new running process as a child of the given parent.
     ///
-    /// Some part of the parent process state is copied to the new process.
+    /// The part of the parent process state that a real `fork` makes the child
+    /// inherit is copied to the new process: the process group, the user and
+    /// group IDs, the file descriptors, the file creation mask, the working
+    /// directory, the signal dispositions, the signal mask, and the resource
+    /// limits. The execution state, pending and caught signals, and wakers are
+    /// not inherited.
     pub fn fork_from(ppid: Pid, parent: &Process) -> Process {
         let mut child = Self::with_parent_and_group(ppid, parent.pgid);
         child.uid = parent.uid;
@@ -181,8 +186,11 @@ impl Process {
         child.gid = parent.gid;
         child.egid = parent.egid;
         child.fds = parent.fds.clone();
+        child.umask = parent.umask;
+        child.cwd.clone_from(&parent.cwd);
         child.dispositions.clone_from(&parent.dispositions);
         child.blocked_signals.clone_from(&parent.blocked_signals);
+        child.resource_limits.clone_from(&parent.resource_limits);
         child
     }
 
